@@ -183,8 +183,8 @@ func buildRole(role spectypes.BeaconRole) *roleCfg {
 // ---- the live system ----
 
 type sys struct {
-	c   *roleCfg
-	w   *runh.World
+	c *roleCfg
+	w *runh.World
 	// oracle state: beacon roots signed post-consensus per duty slot; number of duties started
 	post       map[phase0.Slot]map[[32]byte]bool
 	otherDig   [32]byte
@@ -433,7 +433,7 @@ func main() {
 					continue
 				}
 				fmt.Printf("replay %s on fresh real objects (%s): %s\n", r.Replay, cfg.Name, v.What)
-				if runh.ReplayArtefact(cfg, v) {
+				if runh.ReplayArtefactByName(cfg, v) {
 					fmt.Printf("VIOLATION property=C03 replay=%s\n", r.Replay)
 				} else {
 					fmt.Println("not reproduced")
@@ -485,7 +485,7 @@ func main() {
 		"messages are routed through the real validator.Validator.ProcessMessage as queue.DecodedSSVMessage (decoded from bytes per delivery); duties through Validator.StartDuty; the validator is not Start()ed (no queue consumer goroutines)",
 		"runners/controllers are constructed like operator/validator.SetupRunners (RoundRobinProposer, signature verification on, real ibft/storage on a map-backed basedb.Database); substituted environment: spec TestingBeaconNode, spec TestingKeyManager behind the recording wrapper, capturing network, inert round timer (no timeouts in the alphabet, so round 1 only)",
 		"operator 1 of the 4-operator spec key set; its own broadcasts are not looped back, the other operators' messages (2,3,4) are the alphabet",
-		"canonical state = runner.GetRoot() of the role under test and of the second role (includes controller, instances, containers) + ordered signer log + the oracle's per-duty set of signed roots; a step that leaves it unchanged is followed on the same objects, otherwise fresh objects + replay",
+		"canonical state = for the runner under test and the second role: runner State + controller height + every controller instance in the implementation's own JSON encoding (the constant parts of runner.GetRoot() left out) + ordered signer log + the oracle's per-duty set of signed roots; a step that leaves it unchanged is followed on the same objects, otherwise fresh objects + replay",
 		"SignRoot calls of type QBFTSignatureType (consensus-protocol messages, domain-separated from beacon objects) are logged and part of the state but are not duty signatures and are not judged; SignRoot(PartialSignatureType) must wrap exactly the beacon signatures of the same step",
 		"BLS sign/verify memoised by overlay (pure functions); threshold reconstruction and aggregation run unmodified",
 	)
